@@ -232,6 +232,7 @@ import (
 	"fmt"
 	"io"
 	"os"
+	"sync"
 	"testing/iotest"
 
 	"vb/mon"
@@ -259,6 +260,22 @@ var verifReusedStats Stats
 {{end}}
 
 func init() { mon.Register("{{.Name}}", verifRun) }
+
+// Option values built once and kept by the program, handed to many calls (also concurrent ones).
+var (
+	verifKeptAllow     = AllowInvalidUTF8(true)
+	verifKeptNoRecover = Recover(false)
+{{if not .Optimized}}	verifKeptMemo      = Memoize(true)
+{{end}}	verifKeptBudgets   sync.Map // n -> Option
+)
+
+func verifKeptBudget(n uint64) Option {
+	if o, ok := verifKeptBudgets.Load(n); ok {
+		return o.(Option)
+	}
+	o, _ := verifKeptBudgets.LoadOrStore(n, MaxExpressions(n))
+	return o.(Option)
+}
 
 // verifNested: a nested call of the package's own Parse whose error a code block hands on as it is
 // (the dynamic type of that error is the parser's own error list).
@@ -340,6 +357,10 @@ func verifRun(c *mon.Case) *mon.Result {
 	res := &mon.Result{ID: c.ID}
 	tr := &mon.Trace{Stress: c.Stress, Max: c.MaxEvents}
 	var vp *parser
+	// every other case takes its option values from the program's own store of options built once
+	// (an Option is a value a caller may keep and pass to any number of calls)
+	keep := len(c.Input)%2 == 1
+	_ = keep
 	opts := []Option{GlobalStore("mon", tr), GlobalStore(mon.NestedKey, verifNested)}
 	if c.SharedOpts {
 		opts = append(append([]Option{}, verifSharedOpts...), opts...)
@@ -348,13 +369,25 @@ func verifRun(c *mon.Case) *mon.Result {
 		opts = append(opts, Entrypoint(c.Entry))
 	}
 	if c.AllowInvalid {
-		opts = append(opts, AllowInvalidUTF8(true))
+		if keep {
+			opts = append(opts, verifKeptAllow)
+		} else {
+			opts = append(opts, AllowInvalidUTF8(true))
+		}
 	}
 	if c.NoRecover {
-		opts = append(opts, Recover(false))
+		if keep {
+			opts = append(opts, verifKeptNoRecover)
+		} else {
+			opts = append(opts, Recover(false))
+		}
 	}
 	if c.MaxExpr > 0 {
-		opts = append(opts, MaxExpressions(c.MaxExpr))
+		if keep {
+			opts = append(opts, verifKeptBudget(c.MaxExpr))
+		} else {
+			opts = append(opts, MaxExpressions(c.MaxExpr))
+		}
 	}
 {{if .HasState}}
 	if c.Init > 0 {
@@ -368,7 +401,11 @@ func verifRun(c *mon.Case) *mon.Result {
 {{if not .Optimized}}
 	var st Stats
 	if c.Memo {
-		opts = append(opts, Memoize(true))
+		if keep {
+			opts = append(opts, verifKeptMemo)
+		} else {
+			opts = append(opts, Memoize(true))
+		}
 	}
 	if c.Stats {
 		st.ExprCnt = c.StatsPre
